@@ -33,6 +33,7 @@ def run(tier, seed, ev):
     rng = random.Random(seed)
     sc = V.scratch("c12")
     cases = []
+    cases += HG.identity_cross_product()
     bases = base_headers(rng, 16 if tier == "quick" else 120)
     for h, hdrlen in bases:
         cases.append(h)
